@@ -134,15 +134,26 @@ func aliasLayers(tier string) []Layer {
 							}
 							ro, rpv, rNaN, _, _ := execPart(spec, noAlias, refOps, prec, m, preFresh)
 							exp := spec.Model(valsOf(ops), prec, m)
+							type pv2 struct{ pre, variant int }
+							var runs []pv2
 							for _, pre := range pres {
+								runs = append(runs, pv2{pre, 0})
+							}
+							if zAliased {
+								runs = append(runs, pv2{preFresh, 1}, pv2{preFresh, 2})
+							}
+							for _, rn := range runs {
+								pre := rn.pre
 								if c.Skip() {
 									continue
 								}
+								recvVariant = rn.variant
 								o, pv, isNaN, after, _ := execPart(spec, part, ops, prec, m, pre)
+								recvVariant = 0
 								c.NonTrivial()
 								c.Outcome(o.Hash())
 								key := func() string {
-									return fmt.Sprintf("%s %s alias=%s prec=%d mode=%s pre=%s", spec.Name, opndsString(ops), partString(part), prec, modeName(m), preNames[pre])
+									return fmt.Sprintf("%s %s alias=%s prec=%d mode=%s pre=%s recv-variant=%d", spec.Name, opndsString(ops), partString(part), prec, modeName(m), preNames[pre], rn.variant)
 								}
 								if (pv != nil) != (rpv != nil) || isNaN != rNaN {
 									c.Fail(key(), fmt.Sprintf("panic behaviour differs: aliased/dirty %v, fresh/unaliased %v", pv, rpv))
